@@ -28,21 +28,21 @@ type pframe struct {
 
 // proc is one long-lived solver process driven over a pipe.
 type proc struct {
-	name   string
-	cmd    *exec.Cmd
-	in     io.WriteCloser
-	out    *bufio.Reader
-	em     *Emitter
-	frames []pframe // frames this process has been told about
-	dead   bool
-	log    io.Writer
-	setTO  func(ms int) string
-	curTO  int
-	tactic string
-	lazy   func() (*proc, error)
-	oneshot bool
+	name      string
+	cmd       *exec.Cmd
+	in        io.WriteCloser
+	out       *bufio.Reader
+	em        *Emitter
+	frames    []pframe // frames this process has been told about
+	dead      bool
+	log       io.Writer
+	setTO     func(ms int) string
+	curTO     int
+	tactic    string
+	lazy      func() (*proc, error)
+	oneshot   bool
 	hardLimit time.Duration
-	respawn func() (*proc, error)
+	respawn   func() (*proc, error)
 }
 
 const doneMarker = "<<verif-done>>"
